@@ -492,6 +492,19 @@ class Table:
 
     NEG_CMP = {'IsNot': 'Is', 'NotEq': 'Eq', 'NotIn': 'In'}
 
+    def _count_like(self, rf):
+        """an integer literal, len(...), or a sum of those with integer coefficients"""
+        if rf.den != p_const(1):
+            return False
+        for m, c in rf.num.items():
+            if c.denominator != 1:
+                return False
+            for a, e in m:
+                at = self.atoms[a]
+                if not (at.head == 'call' and at.extra and at.extra[0] == 'fn:len'):
+                    return False
+        return True
+
     def canon_cond(self, rf):
         """(positive form of a condition, whether it was negated)"""
         flipped = False
@@ -506,6 +519,12 @@ class Table:
                 continue
             if at.head == 'cmp' and isinstance(at.extra, tuple) and len(at.extra) == 1 and at.extra[0] in self.NEG_CMP:
                 rf = RF(self, p_atom(self.intern('cmp', at.args, (self.NEG_CMP[at.extra[0]],), None)))
+                flipped = not flipped
+                continue
+            # integers are totally ordered: a <= b is not (b < a) when both sides are counts / integer literals
+            if at.head == 'cmp' and at.extra == ('LtE',) and len(at.args) == 2 and \
+                    all(isinstance(x, RF) and self._count_like(x) for x in at.args):
+                rf = RF(self, p_atom(self.intern('cmp', (at.args[1], at.args[0]), ('Lt',), None)))
                 flipped = not flipped
                 continue
             # emptiness tests: len(x) == 0 is `not x`, 0 < len(x) is `x` (for the sized containers they are used on)
@@ -766,6 +785,14 @@ def dotted(node):
     return None
 
 
+# leading parameters (those that are normally passed by position) of library functions the repository calls
+LIBRARY_SIGNATURES = {
+    'ast.parse': ['source'], 'ast.literal_eval': ['node_or_string'],
+    'searchsorted': ['a', 'v'], 'interp': ['x', 'xp', 'fp'], 'logspace': ['start', 'stop', 'num'],
+    'linspace': ['start', 'stop', 'num'], 'clip': ['a', 'a_min', 'a_max'], 'dot': ['a', 'b'],
+}
+
+
 class Conv:
     """AST expression -> RF.  `env` maps local names to RF (forward
     substitution of unique reaching definitions is done by sa.flow);
@@ -992,6 +1019,9 @@ class Conv:
         else:
             return None
         a = x.single_atom() if isinstance(x, RF) else None
+        if a is None and isinstance(x, RF) and x.const() is None:
+            # the result of arithmetic (a quotient, a product, a sum ...) is never None
+            return t.atom('const', ('False' if op == 'Is' else 'True',))
         if a is None or t.atoms[a].head != 'guard':
             return None
         c, p, q = t.atoms[a].args
@@ -1315,6 +1345,13 @@ class Conv:
         sig_ = getattr(t, 'signatures', None)
         sg_ = sig_(name, recv is not None) if sig_ is not None and name is not None and \
             not any(isinstance(a, ast.Starred) for a in n.args) else None
+        dn_ = dotted(n.func)
+        if dn_ is not None and not any(isinstance(a, ast.Starred) for a in n.args):
+            # the leading parameters of a few library functions, by their documented names
+            parts_ = dn_.split('.')
+            if len(parts_) == 2 and ((parts_[0] in NUMERIC_MODULES and parts_[1] in LIBRARY_SIGNATURES) or
+                                     dn_ in LIBRARY_SIGNATURES) and parts_[0] not in self.env:
+                sg_ = LIBRARY_SIGNATURES.get(dn_) or LIBRARY_SIGNATURES[parts_[1]]
         if sg_ is not None and kw and not any(k == '**' for k, _ in kw):
             kd_ = dict(kw)
             args = list(args)       # (the call event keeps the arguments as written)
